@@ -49,12 +49,12 @@ TrStart == IsEv("Start") /\ pc = "idle" /\ ObsStateIn(Ln.state, mem) /\ UNCHANGE
 
 TrPoint ==
     /\ IsEv("Point")
-    /\ \/ refeed /\ Refeed /\ cur.id = Ln.id /\ cur.lvl = Ln.lvl /\ cur.k = Ln.k
-       \/ ~refeed /\ Feed(Ln.id, Ln.lvl) /\ n = Ln.k
+    /\ \/ refeed /\ Refeed /\ cur.id = Ln.id /\ cur.lvl = Ln.lvl /\ cur.k = Ln.k /\ cur.tm = Ln.t
+       \/ ~refeed /\ Feed(Ln.id, Ln.lvl, Ln.t) /\ n = Ln.k
 
 TrOp ==
     /\ IsEv("Op")
-    /\ \/ Ln.op = "collect" /\ SCollect(Ln.topic, Ln.id, Ln.lvl)
+    /\ \/ Ln.op = "collect" /\ SCollect(Ln.topic, Ln.id, Ln.lvl, Ln.t)
        \/ Ln.op = "close" /\ SClose(Ln.topic)
        \/ Ln.op = "delete" /\ SDelete(Ln.topic)
 
